@@ -68,6 +68,12 @@ inline MValue configured(const MValue& m) {
 #if !ARDUINOJSON_USE_DOUBLE
   if (r.kind == MValue::F64) r = MValue::f32(float(m.d));
 #endif
+#if !ARDUINOJSON_USE_LONG_LONG
+  // without 64-bit storage an integer outside [-2^31, 2^32) cannot be held: the document has null instead (never a wrong number);
+  // a value in [2^31, 2^32) is held when it arrives in an unsigned format and is null when it arrives in a signed one
+  if (r.kind == MValue::Int && (r.i < -(i128(1) << 31) || r.i >= (i128(1) << 32) || (r.s == "signed-format" && r.i >= (i128(1) << 31)))) r = MValue::null();
+#endif
+  if (r.kind == MValue::Int) r.s.clear();
   for (auto& e : r.a) e = configured(e);
   for (auto& kv : r.o) kv.second = configured(kv.second);
   return r;
@@ -277,6 +283,9 @@ inline void judgeDestinations(Ctx& C, const std::string& bytes) {
 
 inline void run(Ctx& C) {
   const bool T = C.thorough();
+#if !ARDUINOJSON_USE_LONG_LONG
+  refmp::tagSignedFormat() = true;
+#endif
   int N = atoi(C.opt("nodes", T ? "3" : "3").c_str());
   int K = atoi(C.opt("nonminimal", T ? "2" : "1").c_str());
   TreeGen G;
